@@ -233,6 +233,110 @@ def native_replay(cid, hname, tests, scratch):
     return results
 
 
+F64_CANDIDATES = [0.0, -0.0, 1.0, -1.0, 2.0, 3.0, -3.0, 0.5, -0.5, 4.0, 1e300, float("inf"), float("nan"), -7.0, 1001.0]
+NOT_A_REPRODUCTION = ("kani::assume", "Not enough det vals", "bytes in the following det vals", "arena:", "VERIF_CAND")
+
+
+def candidate_search(cid, hname, scratch, seed, limit=2500):
+    """Fallback when the solver reports a failed check but no trace could be extracted (Kani prints
+    none for panics with run-time formatted messages, and trace generation - which disables
+    slicing - can time out).  The verdict stays the solver's; this only looks for a concrete input
+    that reproduces it on the real code, natively: (1) the shape of the symbolic inputs (number and
+    byte width of the kani::any() calls) is discovered by running the harness natively on growing
+    all-zero vectors; (2) a grid of special values of that shape (signed zeros, small integers,
+    halves, huge, infinities, NaN for 8-byte slots; 0..3 for 1-byte slots) is run, one process per
+    candidate, through one test binary built once.  Only a candidate on which the harness really
+    panics - for another reason than a violated kani::assume or a malformed vector - counts."""
+    import glob, itertools, random, struct
+    shutil.rmtree(scratch, ignore_errors=True)
+    os.makedirs(scratch)
+    shutil.copytree(os.path.join(HARNESS_RUN, "src"), os.path.join(scratch, "src"))
+    for f in ("Cargo.toml", "Cargo.lock"):
+        shutil.copyfile(os.path.join(HARNESS_RUN, f), os.path.join(scratch, f))
+    mod = PROPS[cid]["module"]
+    open(os.path.join(scratch, "src", "replay_tests.rs"), "w").write("""// generated by run_kani.py
+#[test]
+fn replay_env() {
+    unsafe { crate::util::NATIVE_REPLAY = 0x4e41_5431; }
+    let spec = std::env::var("VERIF_CAND").expect("VERIF_CAND");
+    let vals: Vec<Vec<u8>> = spec.split(';').filter(|s| !s.is_empty()).map(|h| {
+        (0..h.len() / 2).map(|i| u8::from_str_radix(&h[2 * i..2 * i + 2], 16).expect("VERIF_CAND hex")).collect()
+    }).collect();
+    kani::concrete_playback_run(vals, crate::%s::%s);
+}
+""" % (mod, hname))
+    with open(os.path.join(scratch, "src", "lib.rs"), "a") as f:
+        f.write("\nmod replay_tests;\n")
+    env = kani_env()
+    env["VERIF_CAND"] = ""
+    b = sh("cargo kani playback -Z concrete-playback -- replay_tests::replay_env --exact --test-threads 1", cwd=scratch, env=env)
+    m = re.search(r"Running unittests src/lib\.rs \(([^)]+)\)", b.stdout)
+    bins = [os.path.join(scratch, m.group(1))] if m and os.path.exists(os.path.join(scratch, m.group(1))) else []
+    if not bins:
+        bins = [x for x in glob.glob(os.path.join(scratch, "target", "**", "blots_verif_harness-*"), recursive=True)
+                if os.path.isfile(x) and os.access(x, os.X_OK) and "." not in os.path.basename(x)]
+    if not bins:
+        shutil.rmtree(scratch, ignore_errors=True)
+        return [], "candidate search: test binary not found\n" + b.stdout[-1500:]
+    binary = max(bins, key=os.path.getmtime)
+
+    def run(vals):
+        e = dict(env)
+        e["VERIF_CAND"] = ";".join("".join("%02x" % x for x in v) for v in vals)
+        try:
+            r = subprocess.run([binary, "replay_tests::replay_env", "--exact", "--test-threads", "1"], stdout=subprocess.PIPE,
+                               stderr=subprocess.STDOUT, text=True, errors="replace", env=e, cwd=scratch, timeout=20)
+            return r.returncode, r.stdout
+        except subprocess.TimeoutExpired:
+            return 0, "timeout"
+
+    # (1) shape discovery
+    shape = []
+    for _ in range(64):
+        rc, out = run([[0] * n for n in shape])
+        m = re.search(r"Expected (\d+) bytes in the following det vals", out)
+        if "Not enough det vals" in out:
+            shape.append(1)
+        elif m:
+            shape[-1] = int(m.group(1))
+        else:
+            break
+    log = ["candidate search: input shape (bytes per kani::any()) = %s" % shape]
+    if not shape:
+        shutil.rmtree(scratch, ignore_errors=True)
+        return [], "\n".join(log)
+    # (2) the grid
+    def slot_values(n):
+        if n == 8:
+            return [list(struct.pack("<d", x)) for x in F64_CANDIDATES]
+        if n == 1:
+            return [[0], [1], [2], [3]]
+        return [[0] * n, [1] + [0] * (n - 1), [255] * n, [2] + [0] * (n - 1)]
+    per_slot = [slot_values(n) for n in shape]
+    total = 1
+    for v in per_slot:
+        total *= len(v)
+    rnd = random.Random(seed)
+    if total <= limit:
+        grid = [list(c) for c in itertools.product(*per_slot)]
+    else:
+        grid = [[rnd.choice(v) for v in per_slot] for _ in range(limit)]
+        grid.insert(0, [v[0] for v in per_slot])
+    found = []
+    tried = 0
+    for vals in grid:
+        tried += 1
+        rc, out = run(vals)
+        if rc != 0 and "panicked at" in out and not any(k in out for k in NOT_A_REPRODUCTION):
+            m = re.search(r"panicked at ([^\n]*)\n([^\n]*)", out)
+            found.append({"values": vals, "panic": (m.group(1) + " | " + m.group(2)) if m else out[-300:]})
+            if len(found) >= 3:
+                break
+    log.append("candidate search: %d of %d grid points tried, %d reproduce natively" % (tried, len(grid), len(found)))
+    shutil.rmtree(scratch, ignore_errors=True)
+    return found, "\n".join(log)
+
+
 def main():
     ap = argparse.ArgumentParser()
     ap.add_argument("cid")
@@ -306,7 +410,7 @@ def main():
             confirmed.append((n, fcs, None, None))
             continue
         # trace generation disables formula slicing: give the extraction run more time than the check
-        tests, raw = extract_counterexamples(cid, n, target, max(1800, 3 * timeout_s))
+        tests, raw = extract_counterexamples(cid, n, target, int(os.environ.get("VERIF_EXTRACT_TIMEOUT", str(max(1800, 3 * timeout_s)))))
         open(os.path.join(CACHE, "last_playback_%s.log" % n), "w").write(raw)
         fail_tests = [t for t in tests if t["kind"] != "cover"]
         if not fail_tests and tests:
@@ -321,11 +425,22 @@ def main():
             cands.append({"kind": "candidate(zeros)", "description": fcs[0]["description"], "values": [[0] * len(v) for v in shape]})
             cands.append({"kind": "candidate(ones)", "description": fcs[0]["description"], "values": [[255] * len(v) for v in shape]})
             fail_tests = cands
-        if not fail_tests:
-            inconclusive.append((n, "failed check but no counterexample could be extracted"))
-            continue
-        rr = native_replay(cid, n, fail_tests, os.path.join("/var/tmp", "blots-verif-replay-%d" % os.getpid()))
+        rr = native_replay(cid, n, fail_tests, os.path.join("/var/tmp", "blots-verif-replay-%d" % os.getpid())) if fail_tests else []
         reproduced = [x for x in rr if x["panicked"]]
+        solver_trace = any(not t["kind"].startswith("candidate") for t in fail_tests)
+        if not reproduced and not solver_trace:
+            # no trace for the failed check itself (or none at all): look for a reproducing input
+            found, clog = candidate_search(cid, n, os.path.join("/var/tmp", "blots-verif-cand-%d" % os.getpid()), seed)
+            print("  [%s] %s" % (n, clog.replace("\n", "\n  [%s] " % n)))
+            for k, c in enumerate(found):
+                t = {"kind": "candidate(grid)", "description": fcs[0]["description"], "values": c["values"]}
+                fail_tests.append(t)
+                x = {"index": len(rr), "kind": t["kind"], "description": t["description"], "panicked": True, "passed": False, "panic": c["panic"], "tail": None}
+                rr.append(x)
+                reproduced.append(x)
+        if not fail_tests:
+            inconclusive.append((n, "failed check but no counterexample could be extracted or found"))
+            continue
         os.makedirs(os.path.join(os.environ.get("VERIF_EVIDENCE_DIR", VERIF), "replays") if os.environ.get("VERIF_EVIDENCE_DIR") else os.path.join(VERIF, "replays"), exist_ok=True)
         rp = os.path.join(os.path.join(os.environ["VERIF_EVIDENCE_DIR"], "replays") if os.environ.get("VERIF_EVIDENCE_DIR") else os.path.join(VERIF, "replays"), "%s-%s.json" % (cid, n))
         json.dump({"property": cid, "harness": n, "failed_checks": fcs, "counterexamples": fail_tests,
